@@ -487,6 +487,12 @@ def gen_scenario(rng, idx, flags=None):
             dst += "" if dst.endswith("/") else ext
             argv = ["file", "copy"] + (["--recheck-method", rng.choice(METHODS)] if rng.random() < 0.3 else []) + [glob_escape(src), dst]
             tracked_guess.append(dst + src if dst.endswith("/") else dst)
+            if rng.random() < 0.3:
+                # a record made without a file (and so without a rule), the file put there by hand, the path tracked:
+                # the path is recorded already, the rule must still be written
+                full = dst + src if dst.endswith("/") else dst
+                sc["cmds"].append({"argv": argv[:2] + ["--no-recheck"] + argv[2:], "pre": pre})
+                pre, argv = [["write", full, sc["files"].get(src, hx("by hand\n"))]], ["file", "track", glob_escape(full)]
         elif k < 0.92:
             src = rng.choice(tracked_guess)
             ext = os.path.splitext(src)[1]
@@ -653,6 +659,9 @@ def run_scenario(xvc, sc, flags, model):
                 elif a[0] == "rmcache":
                     for cd in XVC_CACHE_DIRS:
                         C.rm_rf(rp.path(".xvc", cd))
+                elif a[0] == "write":
+                    if not os.path.lexists(rp.path(a[1])):
+                        rp.write(a[1], bytes.fromhex(a[2]))
             gis0, dirs0, id0 = snapshot(rp.root)
             argv = [os.path.join(rp.base, "storage") if a == "@STORAGE" else a for a in cmd["argv"]]
             pre = ["-c", "git.auto_commit=false", "-c", "git.auto_stage=true"] if sc.get("stage_only") else []
@@ -849,6 +858,9 @@ def classify(model, flags, o, path, mo, history):
     the .gitignore files before it and the model's class predicates evaluated on exactly that input"""
     if symlinked_gitignore_above(o, path):
         return "gitignore-symlinked"
+    # recorded by `copy --no-recheck` / `move --no-recheck` and not in the workspace since: there is no file Git could stage
+    if path in o.get("absent", []) and history.get(("no_recheck", path)):
+        return "no-recheck-destination-absent"
     if mo is None:
         return None
     bits = mo["bits"].get(path)
@@ -966,6 +978,12 @@ def judge(chk, model, flags, sc, obs, dist, reported, corpus_name=None, quiet=Fa
                             chk.fail("correspondence", "reference semantics says ignored=%s for %r after `xvc %s`, git check-ignore says %s" % (ig, p, " ".join(o["argv"]), real_ig),
                                      {"theorem_or_correspondence": "Gitignore.Model.ignored vs git check-ignore (scenario)", "scenario": sc, "command_index": o["ci"],
                                       "model_line": o["model_line"]}, name="refscn", has_input=False)
+        # a path recorded by copy / move --no-recheck stays outside the workspace until something materialises it
+        for p in o["tracked"]:
+            if p not in o.get("absent", []):
+                history.pop(("no_recheck", p), None)
+            elif "--no-recheck" in o["argv"] and o["kind"] in ("copy", "move") and ("seen", p) not in history and p not in history:
+                history[("no_recheck", p)] = True
         # a path first recorded by a command that failed (error or panic) and never materialised it
         for p in o["tracked"]:
             if p not in history and ("seen", p) not in history:
@@ -1087,7 +1105,7 @@ def load_corpus():
 def scenarios(chk, xvc, model, flags, replay=None):
     n = 60 if chk.tier == "quick" else 520
     items = []
-    if replay:
+    if replay and (replay.get("input") or {}).get("kind") != "init-probe":
         items.append(("replay", {"input": replay.get("input") or replay.get("scenario"), "expect": None}))
     else:
         items += load_corpus()
@@ -1145,6 +1163,45 @@ def init_content_check(chk, xvc, model):
     return {"init_rule_lines": [l.decode() for l in real_rules], "init_ends_with_newline": real.endswith(b"\n")}
 
 
+def init_probe(chk, xvc, only=None):
+    """`xvc init` in a Git repository that already has a root .gitignore: the user's bytes stay a prefix, an
+    unterminated last line stays a line of its own, and what Git ignored before it ignores afterwards"""
+    cases = [("build\n*.o\n", ["build/x.o", "y.o"]), ("build", ["build/x.o"]), ("*.o\n!keep.o", ["y.o"]), ("# note\nout/", ["out/z"]),
+             ("build\r\n", []), ("", [])]
+    if only is not None:
+        cases = [(bytes.fromhex(only["gitignore"]).decode("utf-8", "surrogateescape"), only["ignored"])]
+    n = 0
+    for old_txt, ignored in cases:
+        rp = XvcRepo(xvc, prefix="c16initp", git=True, init=False)
+        try:
+            old = old_txt.encode()
+            rp.write(".gitignore", old)
+            for p in ignored:
+                rp.write(p, b"x\n")
+            r = rp.xvc("init", timeout=300)
+            if r.timed_out:
+                continue
+            n += 1
+            new = rp.read(".gitignore") or b""
+            what = None
+            if r.failed:
+                what = "`xvc init` failed in a repository with a root .gitignore %r: %s" % (old_txt, (r.err or "")[-200:])
+            elif not new.startswith(old):
+                what = "`xvc init` rewrote the user's root .gitignore: %r is not a prefix of %r" % (old, new[:80])
+            elif old and not old.endswith(b"\n") and new != old and new[len(old):len(old) + 1] != b"\n":
+                what = "`xvc init` appended to the unterminated last line %r of the user's .gitignore: %r" % (old.split(b"\n")[-1], new[:len(old) + 40])
+            else:
+                for p in ignored:
+                    if rp.git("check-ignore", "-q", "--no-index", "./" + p).returncode != 0:
+                        what = "%s was ignored by the user's .gitignore %r and is not after `xvc init`" % (p, old_txt); break
+            if what:
+                chk.fail("oracle", what, {"input": {"kind": "init-probe", "gitignore": old.hex(), "ignored": ignored}}, name="initprobe")
+            chk.count(("initprobe", old_txt), True)
+        finally:
+            rp.cleanup()
+    return n
+
+
 def run(chk, replay=None):
     install_findings_fallback()
     chk.cov["trusted_base"] = TRUSTED
@@ -1172,6 +1229,10 @@ def run(chk, replay=None):
         chk.cov["distribution"] = dist
         return
     dist["init"] = init_content_check(chk, xvc, model)
+    if replay is None:
+        dist["init_probes"] = init_probe(chk, xvc)
+    elif replay.get("input", {}).get("kind") == "init-probe":
+        dist["init_probes"] = init_probe(chk, xvc, only=replay["input"])
     dist["switches"] = probe_switches(chk, xvc, flags)
     chk.cov["repairs_in_tree"] = {k: flags[k] for k in ("fixed_P17", "fixed_P35", "fixed_nl", "fixed_P5", "fixed_sn", "fixed_em")}
     both = flags["fixed_sn"] and flags["fixed_em"]
